@@ -2029,7 +2029,9 @@ public:
   CodeBuffer(SymbolTable &symbolTable) :
     symbolTable(symbolTable), constCount(0), stringCount(0), labelCount(0) {}
 
-  const std::string getLabel() { return std::string("lab") + std::to_string(labelCount++); }
+  // Generated labels start with an underscore so that they cannot collide
+  // with the names of procedures, which are used as labels directly.
+  const std::string getLabel() { return std::string("_lab") + std::to_string(labelCount++); }
   void insertInstr(std::unique_ptr<hexasm::Directive> instr) { instrs.push_back(std::move(instr)); }
   void insertData(std::unique_ptr<hexasm::Directive> data) { instrs.push_back(std::move(data)); }
 
@@ -2733,9 +2735,9 @@ public:
 
   void visitPre(Program &tree) {
     // Setup.
-    cb.genBR("start"); // Branch to the start.
+    cb.genBR("_start"); // Branch to the start.
     cb.genSPValue(); // Placeholder for the stack pointer value.
-    cb.genLabel("start");
+    cb.genLabel("_start");
     // Branch and link to main().
     cb.genLDAP("_exit");
     cb.genBR("main");
